@@ -49,9 +49,10 @@ def _devs(ctx):
     return "{" + ", ".join('"%s"' % t for t in tags) + "}"
 
 
-def _generate(ctx, mode, big, shape_k, sample_k, seed):
-    g = ctx.tlc("SigV4Gen", "SigV4.Gen.cfg", workers=1, timeout=1500, seed=seed, count_mc=False,
-                subst={"Big": big, "Mode": '"%s"' % mode, "ShapeK": str(shape_k), "SampleK": str(sample_k)})
+def _generate(ctx, mode, big, shape_k, sample_k, offset):
+    g = ctx.tlc("SigV4Gen", "SigV4.Gen.cfg", workers=1, timeout=1500, count_mc=False,
+                subst={"Big": big, "Mode": '"%s"' % mode, "ShapeK": str(shape_k), "SampleK": str(sample_k),
+                       "Offset": str(offset)})
     if not g.ok() or not g.printed:
         raise vlib.Infra("case generation failed: %s\n%s" % (g.outcome, g.output[-2000:]))
     ctx.log("GEN %s: %d states, %d cases printed, %.1fs" % (mode, g.distinct, len(g.printed), g.wall))
@@ -66,7 +67,7 @@ def run(ctx):
     r = ctx.mc("SigV4", "SigV4.MC.cfg", workers=ctx.pick(4, 12), timeout=ctx.pick(600, 2400), subst={"Big": big})
     ctx.extra["design_states"] = r.distinct
     # 1b. every open deviation of this property is live: enabling it alone breaks the design invariant
-    for tag in TAGS[prop]:
+    for tag in (TAGS[prop] if not ctx.quick() else ()):
         if tag not in ctx.open_tags(prop):
             continue
         d = ctx.tlc("SigV4", "SigV4.MC.cfg", workers=4, timeout=600, count_mc=False,
@@ -75,13 +76,11 @@ def run(ctx):
             raise vlib.Infra("deviation %s does not break Design%s in the spec (%s %s)" % (tag, prop, d.outcome, d.violated))
     # 2. GEN
     if prop == "C29":
-        cases = _generate(ctx, "shapes", big, 1, 1, ctx.seed)
-        if not ctx.quick():
-            pass  # all shapes of the thorough family
+        cases = _generate(ctx, "shapes", big, 1, 1, 0)   # all shapes of the family, independent of the seed
     else:
         cases = []
         for i in range(ctx.pick(1, 3)):
-            cases += _generate(ctx, "cases", big, ctx.pick(3, 4), ctx.pick(6, 40), ctx.seed * 1000 + i)
+            cases += _generate(ctx, "cases", big, ctx.pick(3, 5), ctx.pick(6, 12), ctx.seed * 3 + i)
     seen, uniq = set(), []
     for c in cases:
         k = json.dumps(c, sort_keys=True)
